@@ -363,6 +363,7 @@ func runC13(c *Ctx) {
 
 	runFlagTyping(c, "C13-R4")
 	checkFlagBytesReadThroughMasks(c, "C13-R4")
+	checkSummaryInputIndexIsTheDebits(c, "C13-R1")
 	checkCreditRewriteFlags(c, "C13-R4")
 	checkExistsThenPut(c, "C13-R4")
 	checkConflictRemoval(c, "C13-R5")
@@ -948,4 +949,39 @@ func checkFlagBytesReadThroughMasks(c *Ctx, rule string) {
 func isByteType(t types.Type) bool {
 	b, ok := t.Underlying().(*types.Basic)
 	return ok && (b.Kind() == types.Uint8 || b.Kind() == types.Byte)
+}
+
+// checkSummaryInputIndexIsTheDebits: the wallet's transaction summaries list "my inputs" from the store's debit records.
+// The input each entry names is the debit's own Index — the position in the debit list is something else as soon as an
+// input that is not the wallet's precedes one that is (the amount then sits on an input that spends no wallet credit).
+func checkSummaryInputIndexIsTheDebits(c *Ctx, rule string) {
+	p := c.P
+	n := 0
+	for _, fn := range p.FuncsIn("wallet") {
+		for _, b := range fn.Blocks {
+			for _, ins := range b.Instrs {
+				st, ok := ins.(*ssa.Store)
+				if !ok {
+					continue
+				}
+				fa, ok := st.Addr.(*ssa.FieldAddr)
+				if !ok {
+					continue
+				}
+				if tn, f := fieldAddrName(fa); tn != "TransactionSummaryInput" || f != "Index" {
+					continue
+				}
+				n++
+				fromDebit := false
+				for _, o := range (&Slicer{P: p, ThroughDeref: true}).Origins(st.Val) {
+					if tn, f, _, ok := fieldOf(o); ok && f == "Index" && tn == "DebitRecord" {
+						fromDebit = true
+					}
+				}
+				c.Check(rule, "summary-input-index-is-the-debits:"+fn.Name(), st.Pos(), fromDebit,
+					fnName(fn)+" does not take the index of a reported wallet input from the debit record (DebitRecord.Index): with a foreign input ahead of a wallet input the debit is reported for an input that does not spend a wallet credit")
+			}
+		}
+	}
+	c.Floor(rule, "wallet input entries of transaction summaries", n, 1)
 }
